@@ -26,7 +26,7 @@ type lline struct {
 	text  string
 	x, y  float64 // baseline origin, PDF user space (y grows upwards)
 	h     float64 // font size = fragment height
-	class string  // hdr-same | ftr-same | hdr-odd | hdr-even | hdr-diff | hdr-sub | hdr-numbered | pagenum | body | body-rep | body-hdrtext | body-num | body-num-near | body-rep-band | body-rep-moving
+	class string  // hdr-same | ftr-same | hdr-part | hdr-minority | ftr-diff | hdr-odd | hdr-even | hdr-diff | hdr-sub | hdr-numbered | pagenum | body | body-rep | body-hdrtext | body-num | body-num-near | body-rep-band | body-rep-moving
 	page  int     // 0-based
 }
 
@@ -177,7 +177,18 @@ var hdrKinds = []string{"none", "same", "oddeven", "different", "same+sub", "num
 	// running lines that are identical on every page and contain digits (top band) ...
 	"same-1num", "same-2adj", "same-version", "same-2far", "same-pageno",
 	// ... and running lines in the bottom band (below the page number), without and with digits
-	"bottom-same", "bottom-1num", "bottom-2adj", "bottom-2far", "bottom-pageno"}
+	"bottom-same", "bottom-1num", "bottom-2adj", "bottom-2far", "bottom-pageno",
+	// a marginal line drawn twice on the same page (shadow copy 1.5 pt to the right and below): without and with
+	// repetition across pages, top and bottom band
+	"different+shadow", "same+shadow", "bottom-different+shadow",
+	// running line absent from some pages (own sub-space, P in 2..6): a title page without the running header;
+	// a line on the first two pages only
+	"same-not-first", "minority"}
+
+func shadowHdr(hdr string) bool { return strings.HasSuffix(hdr, "+shadow") }
+
+// partialHdr: header kinds of the "absent from some pages" sub-space.
+func partialHdr(hdr string) bool { return hdr == "same-not-first" || hdr == "minority" }
 
 // runLines: text of the running line of the digit-bearing / bottom header kinds. All are plain repeated lines:
 // one number, two adjacent numbers (year range, version), two numbers far apart, a number equal to a page's number.
@@ -195,7 +206,7 @@ var runLines = map[string]string{
 }
 
 // extendedHdr: header kinds added after the first version; part (B) runs them on a reduced body / size product.
-func extendedHdr(hdr string) bool { _, ok := runLines[hdr]; return ok }
+func extendedHdr(hdr string) bool { _, ok := runLines[hdr]; return ok || shadowHdr(hdr) }
 
 type pnKind struct{ style, pos string }
 
@@ -238,16 +249,17 @@ func bodyKinds() []bodyKind {
 var animals = []string{"Aardvark", "Baboon", "Cheetah", "Dingo", "Egret", "Ferret"}
 
 const (
-	fontSz  = 12.0
-	hdrX    = 72.0
-	ftrX    = 72.0 // left-aligned with the body: tabula's column detection loses centred lone page numbers even without exclusion (not this property)
-	hdrDist = 30.0 // top edge of the header line is 30 pt below the page top
-	subDist = 46.0
-	pnDist  = 14.0 // a page number printed at the top sits above the header line
-	ftrY    = 36.0
-	runFtrY = 18.0 // a running footer text line sits below the page number
-	runHdr  = "Running Title Alpha"
-	repLine = "Confidential Draft Zulu"
+	fontSz    = 12.0
+	hdrX      = 72.0
+	ftrX      = 72.0 // left-aligned with the body: tabula's column detection loses centred lone page numbers even without exclusion (not this property)
+	hdrDist   = 30.0 // top edge of the header line is 30 pt below the page top
+	subDist   = 46.0
+	pnDist    = 14.0 // a page number printed at the top sits above the header line
+	ftrY      = 36.0
+	runFtrY   = 18.0 // a running footer text line sits below the page number
+	shadowOff = 1.5  // offset of a shadow copy
+	runHdr    = "Running Title Alpha"
+	repLine   = "Confidential Draft Zulu"
 )
 
 func footerText(kind string, n, N int) string {
@@ -326,6 +338,20 @@ func buildDoc(P int, hdr string, pn pnKind, body bodyKind, size string) *ldoc {
 			add("hdr-diff", "Chapter "+animals[p], hdrX, topY(hdrDist))
 		case "numbered":
 			add("hdr-numbered", fmt.Sprintf("Section %d Overview", p+1), hdrX, topY(hdrDist))
+		case "same+shadow":
+			add("hdr-same", runHdr, hdrX, topY(hdrDist))
+			add("hdr-same", runHdr, hdrX+shadowOff, topY(hdrDist)-shadowOff)
+		case "different+shadow":
+			add("hdr-diff", "Chapter "+animals[p], hdrX, topY(hdrDist))
+			add("hdr-diff", "Chapter "+animals[p], hdrX+shadowOff, topY(hdrDist)-shadowOff)
+		case "same-not-first":
+			if p > 0 {
+				add("hdr-part", runHdr, hdrX, topY(hdrDist))
+			}
+		case "minority":
+			if p < 2 {
+				add("hdr-minority", "Preface Notes Sierra", hdrX, topY(hdrDist))
+			}
 		default:
 			if t, ok := runLines[hdr]; ok && !strings.HasPrefix(hdr, "bottom-") {
 				add("hdr-same", t, hdrX, topY(hdrDist))
@@ -373,6 +399,10 @@ func buildDoc(P int, hdr string, pn pnKind, body bodyKind, size string) *ldoc {
 		}
 		if t, ok := runLines[hdr]; ok && strings.HasPrefix(hdr, "bottom-") {
 			add("ftr-same", t, ftrX, runFtrY)
+		}
+		if hdr == "bottom-different+shadow" {
+			add("ftr-diff", "Footnote "+animals[p], ftrX, runFtrY)
+			add("ftr-diff", "Footnote "+animals[p], ftrX+shadowOff, runFtrY-shadowOff)
 		}
 		d.pages = append(d.pages, ls)
 	}
